@@ -1023,7 +1023,7 @@ def tier_c(run, thorough):
     bd = Bounded(run, 'C09/joint-draws', 'C09/bootstrap_sample/oracle/faithful-group-resample',
                  'ALL joint outcomes of the RDM and condition draws for ALL pairs of groupings (set partitions), %s; '
                  'default index descriptors; %s for ALL pairs of groupings of n_rdm x n_cond = %s'
-                 % (dom, SWEEP_NOTE, '2 x 3, 2 x 4, 3 x 3' if thorough else '2 x 2 (six of the sweeps: also 2 x 3)'),
+                 % (dom, SWEEP_NOTE, '2 x 3, 3 x 3 (six of the sweeps: also 2 x 4)' if thorough else '2 x 2 (six of the sweeps: also 2 x 3)'),
                  exhaustive=True, function='bootstrap_sample')
     for n_rdm, n_cond, kinds in shapes:
         for rgs in _partitions(n_rdm):
@@ -1037,7 +1037,7 @@ def tier_c(run, thorough):
         bd.check(orc_joint, case, 'default-index,list', function='bootstrap_sample')
     for n_rdm, n_cond in ([(2, 3), (2, 4), (3, 3)] if thorough else [(2, 2), (2, 3)]):
         for name, kind, cont, extra in variants:
-            if not thorough and n_cond == 3 and not _key((name, kind, cont, extra)):
+            if n_cond == (4 if thorough else 3) and not _key((name, kind, cont, extra)):
                 continue
             for rgs in _partitions(n_rdm):
                 for pgs in _partitions(n_cond):
